@@ -14,6 +14,30 @@ CHECKS = {
         "on the real ValuesForPath/ValueForPath/Exists/ValueForPathString. Exhaustive inside the bounds, which is the right level "
         "for a pure query whose defects are shape dependent (the pinned defect needed two indexed steps).",
    ref="DESIGN.md section 4, C07", technique="TLA+ spec + TLC exhaustive enumeration, spec->code replay of every behaviour"),
+ "C08": dict(
+   text="TLA+ specification of ValuesForKey, PathsForKey, PathForKeyShortest and the sub-key predicate (typed, wildcard, negated); TLC checks on every "
+        "Map of the bounded space that key search equals the union over the key's paths, that sub-keys are a pure filter and that the shortest path is minimal, "
+        "and prints expected results for every (Map, key, condition set); the harness replays them under both field separators.",
+   ref="DESIGN.md section 4, C08", technique="TLA+ spec + TLC exhaustive enumeration, spec->code replay"),
+ "C09": dict(
+   text="TLA+ specification of LeafNodes (exact path strings, both notations, no-attr option); TLC checks one leaf per scalar, resolution through the indexed "
+        "path semantics and the no-attr clause on every Map of the bounded space (keys include the empty key, an attribute key and the text key); the harness "
+        "replays LeafNodes/LeafPaths/LeafValues under three attribute prefixes and resolves every returned path through the real ValuesForPath.",
+   ref="DESIGN.md section 4, C09", technique="TLA+ spec + TLC exhaustive enumeration, spec->code replay"),
+ "C10": dict(
+   text="Operational TLA+ specification of UpdateValuesForPath (one branch per code case) checked by TLC against an independently written declarative frame "
+        "condition (only entries under the key, at locations the path addresses, where the conditions hold; count = number of replaced values; read-back clause) "
+        "for every Map x key x path x condition set of the bounded space; every transition (pre, args, post, count) is replayed on the real code in all three newVal forms.",
+   ref="DESIGN.md section 4, C10", technique="TLA+ operational spec vs declarative frame theorem (TLC), transitions replayed on the code"),
+ "C11": dict(
+   text="TLA+ specification of SetValueForPath / Remove / RenameKey with explicit outcome classes and declarative frame conditions checked by TLC on every Map "
+        "without empty lists x every path through maps; every operation is replayed on the real code (outcome class, post-state, read-back), a panic never matches.",
+   ref="DESIGN.md section 4, C11", technique="TLA+ spec + TLC exhaustive enumeration, spec->code replay"),
+ "C12": dict(
+   text="TLA+ specification of NewMap (pair folding over the indexed path semantics) with a declarative content rule checked by TLC; every (Map, pair list) of the "
+        "bounded space is replayed on real objects: the receiver is deep-compared before/after every call including overlapping pairs, the content is compared when no "
+        "new path equals or extends another, malformed pairs must be rejected.",
+   ref="DESIGN.md section 4, C12", technique="TLA+ spec + TLC exhaustive enumeration, spec->code replay on live objects"),
 }
 NOT_YET = "machinery for this property is not built yet in this round (design in DESIGN.md section 4); no claim is made"
 
